@@ -1114,6 +1114,26 @@ func (c *Context) Pow(d, x, y *Decimal) (Condition, error) {
 		return c.goError(InvalidOperation)
 	}
 
+	if y.Form == Infinite {
+		// x is finite and positive here. The result is exact, except that
+		// 1**±Infinity is deemed inexact and is 1 padded to the precision.
+		var res Condition
+		switch cmp := x.Cmp(decimalOne); {
+		case cmp == 0:
+			d.Set(decimalOne)
+			if c.Precision > 0 {
+				res = c.quantize(d, d, 1-int32(c.Precision))
+			}
+			res |= Inexact | Rounded
+		case (cmp < 0) == y.Negative:
+			d.Set(decimalInfinity)
+		default:
+			d.Set(decimalZero)
+		}
+		d.Negative = neg
+		return c.goError(res)
+	}
+
 	// decNumber sets the precision to be max(x digits, c.Precision) +
 	// len(exponent) + 4. 6 is used as the exponent maximum length.
 	p := c.Precision
